@@ -9,6 +9,7 @@ mod par;
 mod props;
 mod refmodel;
 mod report;
+mod selftest;
 mod semi;
 mod sess;
 mod vpipe;
@@ -80,6 +81,7 @@ fn main() {
         std::process::exit(code);
     }
     let code = match id.as_str() {
+        "selftest" => selftest::run(),
         "C01" => props::c01::run(tier),
         "C02" => props::c02::run(tier),
         "C03" => props::c03::run(tier),
